@@ -22,11 +22,11 @@ CLAIMED = {
             "E_generate[exp(w) G(trace)] = E_simulate[1{constraints hold} G(trace)] in a finite-support expectation semantics of the sampling monad (exact rationals); Cond programs are excluded (partial).",
             GFI_NOTE, "Coq proof by mutual induction over program syntax + differential correspondence (vm_compute)", "7/C02"),
     "C03": ("Theorems for all programs: the updated trace is coherent under the new arguments; weight = log p(new) - log p(old) (static address skeleton), "
-            "including Cond flips (after the fix commit); telescoping. The frame/discard/round-trip clauses are judged per case by the correspondence "
+            "including Cond flips (after the fix commit); telescoping. The frame clause is proved for Cond-free programs (C03_update_frame); discard / round trip are judged per case by the correspondence "
             "(upd_spec); the full frame statement is refuted for Cond flips (known finding K1, witness theorem C03_frame_full_refuted).",
             GFI_NOTE, "Coq proof by mutual induction over program syntax + differential correspondence (vm_compute)", "7/C03"),
     "C04": ("Theorems for all programs/selections/outcomes: regenerated trace coherent; weight = density change minus selected-prior change when no Cond flips; "
-            "all-selected => 0; none-selected => plain ratio. Frame, discard and definedness are judged per case by the correspondence (regen_spec).",
+            "all-selected => 0; none-selected => plain ratio; frame for Cond-free programs (C04_regenerate_frame). Frame with Cond, discard and definedness are judged per case by the correspondence (regen_spec).",
             GFI_NOTE, "Coq proof by mutual induction over program syntax + differential correspondence (vm_compute)", "7/C04"),
     "C16": ("Theorems for ALL selection expressions and paths (structural induction over sel, nested dicts included): the match-chain + '() in' probe used by "
             "regenerate/filter equals the Boolean-algebra denotation sem (or/and/not, str = head, tuple = prefix, dict delegation); filter splits the leaves of "
@@ -110,8 +110,10 @@ CLAIMED = {
             "Coq proof by induction over the observation sequence (HMM) + differential correspondence and dense-conditioning judgement (vm_compute)", "7/C20"),
     "C13": ("Model: for each of the 24 exported distributions and each documented call signature (positional and keyword: probs vs logits, rate vs log_rate, covariance, ...) the log "
             "density / log mass as a reflected real expression of rational parameters and value (coq/Model/Dists.v: spec, doc_table). Theorems (all parameters, all sizes): total mass 1 for "
-            "flip, bernoulli (probs and logits), categorical over any non-empty logits, binomial for every n; geometric counts failures from 0 with mass p(1-p)^k and partial masses "
-            "1-(1-p)^n; sample_shape / vectorisation only prepend dimensions (lanes ++ sample_shape ++ batch ++ event). Correspondence on every run: implementation logpdf (eager = jit = "
+            "flip, bernoulli (probs and logits), categorical over any non-empty logits, binomial for every n; geometric counts failures from 0 with mass p(1-p)^k, partial masses "
+            "1-(1-p)^n and limit 1; poisson masses sum to 1 as a series; exponential takes a rate: density = CDF', integral over [0,b] = F(b)-F(0), F -> 1; uniform integrates to 1; density = CDF' for laplace, "
+            "cauchy, weibull and two user-wrapped families; sample_shape / vectorisation only prepend dimensions; a wrapper table regenerated from distributions.py by a translator (Python ast) that equals the expected "
+            "one denotes exactly the documented call signatures (C13_wrappers_denote_documented_signatures). Correspondence on every run: implementation logpdf (eager = jit = "
             "assess weight) vs the denotation of the specification, decided INSIDE Coq by the Interval tactic per case; shapes and dtypes by computation; sampler law by goodness of fit "
             "against scipy (4000 draws; sample_shape, modular_vmap, 2-D sample_shape, vmap x sample_shape). NOT mechanised (partial): normalisation of the families whose constant needs "
             "the Gaussian integral or Gamma/Beta/zeta as integrals (validated point-wise only, on integer / half-integer shapes), and that the TFP samplers draw from the density (statistical).",
@@ -122,7 +124,8 @@ CLAIMED = {
     "C09": ("Theorems: accept iff log u < min(0, log_alpha) (all kernels); the MH balance identity a*min(1,b/a) = b*min(1,a/b); the weight mh uses is the MH log ratio of the "
             "regenerate-from-prior proposal (via C04); mala's log_alpha is the MH log ratio of the Langevin proposal with drift eps^2/2*grad, scale eps, one noise per coordinate; "
             "n leapfrog steps are reversible under momentum flip for ANY gradient function over ANY commutative ring; rejected moves return the input; unselected coordinates untouched. "
-            "NOT mechanised (partial): leapfrog volume preservation / detailed balance on R^n; the assembled finite-support detailed-balance statement for mh; Cond-indicator moves "
+            "leapfrog volume preservation for affine gradients (C09_leapfrog_volume_affine: n steps are an affine map with determinant 1). "
+            "NOT mechanised (partial): volume preservation for general gradients / detailed balance on R^n; the assembled finite-support detailed-balance statement for mh; Cond-indicator moves "
             "are covered only through the regenerate theorems.",
             "Trusted: Coq kernel; model coq/Model/Mcmc.v over exact rationals with dual-number gradients for Gaussian programs (affine means); jax.grad is an oracle validated by the "
             "correspondence; harness/worker_mcmc.py scripts noise/momentum/threshold by replacing module globals mcmc.normal/uniform and reads log_alpha through a jnp.minimum proxy that "
@@ -139,7 +142,8 @@ CLAIMED = {
     "C12": ("Theorem C12_systematic_floor_ceil: for EVERY non-negative weight vector with positive total (0 = -inf log weight), every N>=1 and EVERY offset u=a/b in (0,1), "
             "particle i gets floor(N w_i) or ceil(N w_i) copies (exact integer model of cumsum/searchsorted; proof by counting positions below each cumulative weight); zero weight => no copies; "
             "resample: each output particle is the whole input particle at its index, weights reset, diagnostics = pre-resampling normalised weights, exp(lml) unchanged (field identity in Q). "
-            "E[copies]=N w_i is not mechanised (partial).",
+            "Unbiasedness (C12_systematic_unbiased_on_grid): over the uniform grid of c*sum(w) offsets the copies of particle i sum to c*N*w_i, for every weight vector, N and resolution c "
+            "(the continuous expectation is the limit of these exact Riemann averages, not itself mechanised).",
             "Trusted: Coq kernel; hand model coq/Model/Resample.v of systematic_resample/resample_vectorized_trace/resample/log_marginal_likelihood over exact integers/rationals; "
             "correspondence harness/worker_resample.py scripts the offset (monkeypatching smc.uniform), skips exact float ties, compares indices exactly and lml within 5e-5; "
             "the diagnostic-weight clause is compared in the harness with tolerance 1e-5. No axioms.",
